@@ -4,5 +4,5 @@ Extraction Language OCaml.
 (* keep OCaml's own List module visible to the drivers: the extracted Coq List becomes List0 *)
 Extraction Blacklist List String Int.
 (* Z.of_nat / N.of_nat only so that BinNums (needed by ocaml/common/zio.ml) is emitted *)
-Separate Extraction step_fn enabled init run run_first main_done main_waiting quiescent stuck all_tasks_done wf
+Separate Extraction step_fn step_fn_skip enabled enabled_skip init run run_first main_done main_waiting quiescent stuck all_tasks_done wf
   queue_full conts_of st_of pc_of body_of occ on_worker Z.of_nat N.of_nat Z.to_nat.
